@@ -66,6 +66,20 @@ fn generate(seed: u64, tier: Tier) -> Value {
         let from = if r.chance(1, 2) { ops[r.usize_below(ops.len())]["start_ms"].as_u64().unwrap_or(0) + r.below(timeout_ms / 2 + 20) } else { r.below(3 * timeout_ms) };
         silence.push(json!({"node": r.below(n), "from_ms": from, "until_ms": if r.chance(1, 2) { json!(from + r.range(1, 4 * timeout_ms)) } else { Value::Null }}));
     }
+    // the connection layer reports a connection lost while work is in flight (the peer stays in the
+    // registry as disconnected; later sends to it take the dead-connection path)
+    let mut conn_lost = Vec::new();
+    for _ in 0..(if r.chance(1, 2) { r.below(4) } else { 0 }) {
+        let q = ops[r.usize_below(ops.len())].clone();
+        let node = q["node"].as_u64().unwrap_or(0);
+        conn_lost.push(json!({"node": node, "peer": r.below(n), "at_ms": q["start_ms"].as_u64().unwrap_or(0) + r.below(timeout_ms / 2 + 20)}));
+        // and some more work on that node right afterwards
+        for _ in 0..r.below(3) {
+            let o = ops.len() as u64;
+            ops.push(json!({"o": o, "node": node, "kind": *r.pick(&["ping", "lookup", "put", "get", "find_node"]), "start_ms": q["start_ms"].as_u64().unwrap_or(0) + timeout_ms / 2 + 30 + r.below(timeout_ms),
+                            "key_salt": r.below(6), "to": conn_lost.last().map(|c| c["peer"].as_u64().unwrap_or(0)).unwrap_or(0), "count": 8, "len": 10, "abandon_ms": 0}));
+        }
+    }
     let mut stops = Vec::new();
     for _ in 0..r.below(3) {
         // three in four stops are aimed inside an operation of the stopped node
@@ -88,7 +102,7 @@ fn generate(seed: u64, tier: Tier) -> Value {
     }
     json!({"property": "C20", "seed": seed, "net_seed": r.below(1 << 40), "n": n, "topology": topo, "edges": edges, "ident": if r.chance(2, 3) { "a" } else { "b" },
            "k": *r.pick(&[3u64, 8, 8, 20]), "timeout_ms": timeout_ms, "nodes": nodes, "ops": ops,
-           "faults": {"silence": [], "slow": [], "drops": [], "dial": []}, "silence_at": silence, "stops": stops, "liars": [], "yield_rate": *r.pick(&[0u64, 0, 16, 64, 128, 200]),
+           "faults": {"silence": [], "slow": [], "drops": [], "dial": []}, "silence_at": silence, "conn_lost": conn_lost, "stops": stops, "liars": [], "yield_rate": *r.pick(&[0u64, 0, 16, 64, 128, 200]),
            "latency_ms": *r.pick(&[1u64, 5, 20]), "jitter_ms": *r.pick(&[0u64, 3, 30])})
 }
 
@@ -96,6 +110,7 @@ fn shrink(sc: &Value) -> Vec<Value> {
     let mut v = drop_chunks(sc, "ops");
     v.extend(drop_chunks(sc, "silence_at"));
     v.extend(drop_chunks(sc, "stops"));
+    v.extend(drop_chunks(sc, "conn_lost"));
     v.extend(drop_chunks(sc, "edges"));
     v
 }
@@ -188,6 +203,20 @@ fn execute(sc: &Value) -> RunReport {
                 let e = net2.now_ms();
                 if let Some(x) = log.lock().unwrap().get_mut(&o) { x.3 = Some((e, out)); }
             }));
+        }
+        // connection-lost notifications at drawn instants
+        for c in sc["conn_lost"].as_array().cloned().unwrap_or_default() {
+            let node = (c["node"].as_u64().unwrap_or(0) as usize) % n;
+            let mut peer = (c["peer"].as_u64().unwrap_or(0) as usize) % n;
+            if peer == node { peer = (peer + 1) % n; }
+            let at = c["at_ms"].as_u64().unwrap_or(0);
+            let tr = nodes[node].transport.clone();
+            let ptid = tids[peer].clone();
+            tokio::spawn(async move {
+                tokio::time::sleep(Duration::from_millis(at)).await;
+                if tr.is_peer_connected(&ptid).await { tr.verif_connection_lost(&ptid).await; }
+            });
+            ctx.fault("connection_lost_notification");
         }
         // stops
         let stop_log: Arc<Mutex<Vec<(usize, u64, Option<u64>, usize, String)>>> = Arc::new(Mutex::new(Vec::new()));
